@@ -1,6 +1,5 @@
 INIT Init
 NEXT Next
-INVARIANT AllExplained
 POSTCONDITION Accepted
 CHECK_DEADLOCK FALSE
-CONSTANT NameOrder <- TraceOrder
+CONSTANT NameOrder <- ABCD
